@@ -28,6 +28,20 @@ MY_OPS = ("check_compat", "set_version")
 VALUE_ERRORS = ("PRegexMatchError", "PStringValueTooLong", "PInvalidNumber")
 
 
+def build_runner():
+    """ocaml/build_tree.sh; several checks may run it at the same moment in the shared _build directory: a collision (half
+    written object files) is retried"""
+    import time
+    rc, bout = 1, ""
+    for attempt in range(4):
+        with lib.BuildLock("ocaml-tree"):
+            rc, bout, _ = lib.run([os.path.join(VERIF, "ocaml", "build_tree.sh")], timeout=1800)
+        if rc == 0 and os.path.exists(AVM):
+            break
+        time.sleep(5 + 10 * attempt)
+    return rc, bout
+
+
 def split_scripts(text):
     return [p for p in re.split(r"(?m)^(?=SCRIPT )", text) if p.strip()]
 
@@ -200,7 +214,11 @@ def run(tier, seed):
     ctx.log("coq done (%.0fs)" % dt)
 
     avh = lib.harness_build(ctx)
-    rc, bout, _ = lib.run([os.path.join(VERIF, "ocaml", "build_tree.sh")], timeout=1800)
+    if os.environ.get("C17_AVH_OVERRIDE"):
+        # mutation self-test only (tools/c17_mutate.sh): a harness built against a mutated private COPY of /repo
+        avh = os.environ["C17_AVH_OVERRIDE"]
+        ctx.notes.append("harness binary overridden: " + avh)
+    rc, bout = build_runner()
     ctx.oblige("build:tree-model-runner(extraction of Tree/*.v incl. Compat.v, ocaml)", rc == 0, bout[-1200:] if rc else "")
     prop_fail = []
     if avh and rc == 0 and os.path.exists(os.path.join(DUMP, "spec_tables.txt")):
@@ -330,8 +348,8 @@ def replay(path):
         xmlcommon.translate_all(ctx)
         shutil.rmtree(DUMP, ignore_errors=True)
         shutil.copytree(xmlcommon.DUMP, DUMP)
-    avh = lib.harness_build(ctx)
-    rc, bout, _ = lib.run([os.path.join(VERIF, "ocaml", "build_tree.sh")], timeout=1800)
+    avh = os.environ.get("C17_AVH_OVERRIDE") or lib.harness_build(ctx)
+    rc, bout = build_runner()
     if not avh or rc != 0:
         print("build failed")
         return 2
